@@ -351,7 +351,8 @@ std::string read_file(const std::string& kind_in, const std::string& data) {
     try {
         rdr.reset(new CDNS::CdnsReader(*in));
         CDNS::CdnsReader& reader = *rdr;
-        out += rec::show_preamble(reader.m_file_preamble);
+        const std::string preamble_at_open = rec::show_preamble(reader.m_file_preamble);
+        out += preamble_at_open;
         bool eof = false;
         if (kind == "R") {
             // ONE block object for the whole file: every block is read into it (CdnsBlockRead::read on a used object) ...
@@ -377,6 +378,8 @@ std::string read_file(const std::string& kind_in, const std::string& data) {
             if (eof) break;
             out += " " + dump_block(b);
         }
+        // the reader's copy of the file preamble is the application's to inspect at any time: reading blocks must not change it
+        if (rec::show_preamble(reader.m_file_preamble) != preamble_at_open) out += " PREAMBLE-NOW:" + rec::show_preamble(reader.m_file_preamble);
         out += " EOF";
     } catch (CDNS::CdnsDecoderEnd&) { out += " E:end"; }
     catch (CDNS::CdnsDecoderException&) { out += " E:dec"; }
